@@ -61,9 +61,17 @@ Print Assumptions C18_WellFormed_b_sound_partial.
      - (W4, edge half, is now PROVED below: every edge of the output is an original edge that touches
        a handoff or joins two members of one subgraph, or one half of a split edge -- PFullE.EInv)
      - W4, handoff half (one producer, at most one consumer, in different subgraphs unless the handoff
-       carries a delay mark): the producer/consumer lists follow from PFullE.edge_class by counting;
-       "different subgraphs" for INSERTED handoffs needs the colour-tree invariant of W3, for user
-       handoffs it follows from SMInv.inv_acyclic
+       carries a delay mark): "different subgraphs" is PROVED below for user-written handoffs (from
+       SMInv.inv_acyclic: a -> h -> c with a, c in one group would be the quotient cycle G -> {h} -> G);
+       for INSERTED handoffs it needs the colour-tree invariant of W3 -- the argument is: an edge
+       a -> c left in handoff_edges with a, c in one group closes an undirected cycle with the tree of
+       merged edges; merged edges have non-decreasing colour rank Pull <= Comp <= Push and never
+       Comp -> Comp, Pull nodes have out-degree <= 1 and Push nodes in-degree <= 1, so the tree path
+       between c and a is a directed path c ->* a and a -> c would close a same-tick cycle; this
+       needs (i) "each group is connected by merged edges", (ii) "merged edges carry an allowed colour
+       pair" and (iii) the degree facts of node_color as further PInv conjuncts, none carried yet.
+       The exact producer/consumer LISTS additionally need the converse of PFullE.edge_class
+       (handoff-adjacent original edges are kept).
      - W6 / W7: need (a) that sm_subgraphs lists the classes in an order compatible with
        C17_sm_group_order (quotient edges go forward), and (b) a specification of contig /
        make_loops_contiguous (output is a permutation of the flat order, every loop's descendants
@@ -91,6 +99,18 @@ Theorem C18_W4_edges_all_graphs_partial : forall (T : optable) (g p : graph),
   forall e, In e (g_edges p) -> edge_ok p e.
 Proof. exact W4_edges_all. Qed.
 Print Assumptions C18_W4_edges_all_graphs_partial.
+
+(* a user-written handoff separates subgraphs (the part of W4's handoff half that does not need the
+   colour invariant) *)
+Theorem C18_user_handoff_separates_partial : forall (T : optable) (g p : graph),
+  flat_ok_b T g = true -> partition_model T g = POk p ->
+  forall ein eout, In ein (g_edges g) -> In eout (g_edges g) ->
+    e_dst ein = e_src eout -> is_hoff g (e_dst ein) = true ->
+    is_hoff g (e_src ein) = false -> is_hoff g (e_dst eout) = false ->
+    Model.is_tick T g eout = false ->
+    sg_of p (e_src ein) <> sg_of p (e_dst eout) \/ sg_of p (e_src ein) = None.
+Proof. exact user_handoff_separates. Qed.
+Print Assumptions C18_user_handoff_separates_partial.
 
 (* the progress loop of the model is total and keeps its invariant *)
 Theorem C18_progress_loop_total_partial : forall (T : optable) (g p : graph),
